@@ -253,12 +253,12 @@ Proof.
   intros stdlib a pkg core tail k Hp Hc H.
   unfold site_allowed. simpl.
   assert (Hi : forall i, instantiate a pkg core tail k = Some i -> allowed stdlib pkg core i = true).
-  { intros i Hi. destruct a as [l p|sfx| | | | | | | |au]; simpl in *; try discriminate; inversion Hi; subst i.
+  { intros i Hi. destruct a as [l p|sfx| | | | | | | |au| ]; simpl in *; try discriminate; inversion Hi; subst i.
     - destruct l; simpl; [|reflexivity]. unfold allowed, abs_allowed. simpl. rewrite H. reflexivity.
     - unfold allowed, abs_allowed. simpl. rewrite (under_app core sfx Hc). rewrite orb_true_r. reflexivity.
     - unfold allowed, abs_allowed. simpl. rewrite (under_app pkg tail Hp). rewrite orb_true_r. reflexivity.
     - reflexivity. }
-  assert (Hcl : classified a = true) by (destruct a as [ | | | | | | | | |[|]]; simpl in *; auto).
+  assert (Hcl : classified a = true) by (destruct a as [ | | | | | | | | |[|]| ]; simpl in *; auto).
   rewrite Hcl. simpl.
   destruct (instantiate a pkg core tail k) as [i|] eqn:E; [|reflexivity].
   rewrite (Hi i eq_refl). simpl. apply registered_allowed. apply Hi. reflexivity.
